@@ -103,6 +103,23 @@ def cases(ctx, tier):
         e = rng.choice([1, 1, 1, 2, 3, rng.getrandbits(7)])
         out.append(('mpz_powm %s %s %s %d' % (hx(b), hx(e), hx(m * rng.choice([1, 1, -1])), rng.choice([0, 0, 1, 2, 3])), 'powm-near-modulus'))
         out.append(('mpz_powm_ui %s %x %s %d' % (hx(b), e, hx(m), rng.choice([0, 0, 1, 3])), 'powm_ui-near-modulus'))
+    # the as-coded models of mpn_powm and of the mpz_powm wrapper (window sizes 1..6 by exponent length, windows straddling limb
+    # boundaries, exponents with low zero bytes, bases longer and shorter than the modulus, every wrapper path)
+    for _ in range(120 if quick else 1500):
+        n = rng.choice([1, 1, 2, 2, 3, 4])
+        m = nonzero_top(rng, n, rng.choice(['uniform', 'ones', 'top1', 'runs', 'sparse'])) | 1
+        b = nonzero_top(rng, rng.choice([1, n, n, n + 2]), rng.choice(['uniform', 'ones', 'runs', 'sparse']))
+        eb = rng.choice([2, 3, 7, 8, 24, 25, 26, 64, 65, 81, 82, 128, 241, 242, 243, 300, 673, 674, 675])
+        e = (rng.getrandbits(eb) | (1 << (eb - 1))) if rng.random() < 0.7 else ((rng.getrandbits(eb) | (1 << (eb - 1))) >> rng.choice([8, 16])) << rng.choice([8, 16])
+        if e < 2: e = 2
+        out.append(('mpn_powm %s %s %s' % (hx(b), hx(e), hx(m)), 'mpn_powm-as-coded'))
+    for _ in range(200 if quick else 2500):
+        k = rng.randrange(1, 4)
+        m = rng.choice([nonzero_top(rng, k) | 1, nonzero_top(rng, k) << rng.choice([1, 3, 63, 64, 65, 128]), 1 << rng.randrange(1, 200), 3 << 63, 1, 2, 4,
+                        (1 << (64 * k)) + rng.choice([0, 1, 2]), nonzero_top(rng, k, 'runs') | 1]) * rng.choice([1, 1, -1])
+        b = rng.choice([0, 1, -1, 2, 6, -4, signed_value(rng, 3), abs(m) - 1, -(abs(m) - 1), abs(m), (1 << (64 * k)) - 1, -((1 << (64 * k)) - 1), rng.getrandbits(64 * k + 70)])
+        e = rng.choice([0, 1, 1, 2, 3, 19, 20, 21, 64, (1 << 63), (1 << 64) - 1, 1 << 64, (1 << 64) + 1, rng.getrandbits(rng.choice([5, 30, 70, 130])), -1, -2, -rng.getrandbits(20)])
+        out.append(('mpz_powm_c %s %s %s %d' % (hx(b), hx(e), hx(m), rng.choice([0, 0, 1, 2, 3])), 'mpz_powm-as-coded'))
     out.append(('mpz_powm 5 3 0 0', 'powm-zero-modulus'))
     out.append(('mpz_powm 2 -1 8 0', 'powm-no-inverse'))
     out.append(('mpz_powm 6 -5 9 0', 'powm-no-inverse'))
